@@ -39,6 +39,31 @@ pub fn run(tier: Tier) -> ! {
     let sr = crate::sched::explore(&w, tier, &chk);
     chk.set("schedules_explored", json!(sr.schedules));
     chk.set("schedule_assignments", json!(sr.assignments));
+    // C08c: loom exploration INSIDE calls, on a copy of the library whose atomics / Mutex / RwLock /
+    // Condvar paths were rewritten to loom's (tools/loomprep.sh). Exhaustive up to loom's
+    // pre-emption bound for the primitives it intercepts; trivial when the library has none.
+    if std::path::Path::new("/verif/target/loom/release/vp-loom.ok").exists() {
+        match std::process::Command::new("/verif/target/loom/release/vp-loom").output() {
+            Ok(o) => {
+                let out = String::from_utf8_lossy(&o.stdout).to_string();
+                let line = out.lines().rev().find(|l| l.starts_with("LOOM ")).unwrap_or("").to_string();
+                chk.set("loom_pass", json!({"available": true, "summary": line}));
+                if line.contains("result=violation") || !o.status.success() {
+                    let path = "/verif/replays/C08-loom.txt";
+                    let _ = std::fs::write(path, format!("command: /verif/tools/loomprep.sh && cargo build --release --offline --manifest-path /verif/harness/vp-loom/Cargo.toml --target-dir /verif/target/loom && /verif/target/loom/release/vp-loom\n{out}\n{}", String::from_utf8_lossy(&o.stderr).lines().rev().take(40).collect::<Vec<_>>().into_iter().rev().collect::<Vec<_>>().join("\n")));
+                    say(&format!("VIOLATION property=C08 replay={path}"));
+                    say(&format!("  what: loom found an interleaving inside predict/fill_tags in which a thread sharing a never-used predictor observes a different result than alone: {line}"));
+                    chk.eval(1);
+                    chk.nontrivial(2);
+                    chk.write_evidence_only("loom pass found a violation before the other searches were started", 1);
+                    std::process::exit(1);
+                }
+            }
+            Err(e) => chk.set("loom_pass", json!({"available": false, "error": e.to_string()})),
+        }
+    } else {
+        chk.set("loom_pass", json!({"available": false, "reason": "the loom-transformed copy of the library did not build (see /verif/target/build-loom.log); not a verdict"}));
+    }
     // Complementary, sampling-based passes for what call-level interleaving cannot reach (the
     // inside of a call). A nightly probe tells whether Predictor holds interior mutability as a
     // direct field (atomics, cells, locks); if so the sampling effort is raised 40x.
